@@ -880,6 +880,11 @@ def _r4_defs(ctx, pkg):
             continue
         bv, body, base, ifs = m
         ok = body == ("attr", bv, fld) and not ifs and base[0] == "attr" and base[2] == attr and base[1][0] != "const"
+        # understood and wrong: one field of each member of a sequence of the network -- another field, another sequence, or a selection.
+        # An entry computed in another way (a call on the member, a nested attribute) is not understood.
+        if not ok and not (body[0] == "attr" and body[1] == bv and base[0] == "attr"):
+            ctx.unrec("R4", key, (RENDER, sf.line), f"summary[{skey!r}]: what is listed per member is not understood: [{show(body)[:60]} for .. in {show(base)[:60]}]")
+            continue
         ctx.check(ok, "R4", key, (RENDER, sf.line), f"{nm} = [x.{fld} for x in net.{attr}] (same sequence, same order)",
                   found=f"[{show(body)} for .. in {show(base)}{' if ' + ' and '.join(show(c) for c in ifs) if ifs else ''}]")
     for name, f, v in counts:
